@@ -17,7 +17,7 @@ ASSUMPTIONS = [
     "generators have distinct priorities per path (ties are not specified)",
     "the device file differ is annet.diff.UnifiedFileDiffer (the shipped default implementation), PC hardware, software string without Cumulus/SONiC",
 ]
-FLOORS = {"quick": {"listing_orders": 3000, "jobs_parsed": 3000, "shared_paths": 500, "forced_runs": 500, "diffs_checked": 1500, "cases_with_unsupported_generators": 400, "safe_mode_jobs": 2000, "safe_mode_jobs_with_empty_safe_set": 200, "cases_with_multi_line_files": 800, "cases_with_a_device_file_holding_the_same_lines_in_another_order": 300, "cases_with_instance_level_priorities": 800, "generators_without_a_reload_command": 500, "jobs_with_real_deploy_options": 3000, "generators_without_a_path_for_the_device": 300, "cases_with_a_word_that_contains_None": 200},
+FLOORS = {"quick": {"listing_orders": 3000, "jobs_parsed": 3000, "shared_paths": 500, "forced_runs": 500, "diffs_checked": 1500, "cases_with_unsupported_generators": 400, "safe_mode_jobs": 2000, "safe_mode_jobs_with_empty_safe_set": 200, "cases_with_multi_line_files": 800, "cases_with_a_device_file_holding_the_same_lines_in_another_order": 300, "cases_with_instance_level_priorities": 800, "generators_without_a_reload_command": 500, "jobs_with_real_deploy_options": 3000, "generators_without_a_path_for_the_device": 300, "cases_with_a_word_that_contains_None": 200, "cases_changing_only_lines_that_begin_with_two_signs": 200},
           "thorough": {"listing_orders": 120000, "jobs_parsed": 120000, "shared_paths": 20000, "forced_runs": 20000, "diffs_checked": 60000, "cases_with_unsupported_generators": 15000, "safe_mode_jobs": 80000, "safe_mode_jobs_with_empty_safe_set": 8000}}
 PATHS = ["/etc/a.conf", "/etc/b/b.conf", "/etc/c"]
 KNOWN_NL = "C19/upload-decision-blind-to-trailing-newline"
@@ -123,6 +123,15 @@ def rl(r):
     return "" if r in (None, "<none>") else r
 
 
+def rl_dev(g, soft):
+    """the reload command planned for a file: the generator's own, and on the platforms that keep /etc under etckeeper (Cumulus, SwitchDev, SONiC)
+    the commit of the file after it"""
+    base = rl(g["reload"])
+    if soft.startswith(("Cumulus", "SwitchDev", "SONiC")):
+        return "\n".join(([base] if base else []) + ["/usr/bin/etckeeper commitreload %s" % g["path"]])
+    return base
+
+
 def check_case(seed, acc, unsupported=False, perm=False, inst=False):
     import annet.deploy as AD
     from annet import api, cli_args
@@ -168,6 +177,15 @@ def check_case(seed, acc, unsupported=False, perm=False, inst=False):
             g = wrng.choice(gens_spec)
             g["output"] = wrng.choice(["owner NoneSuch-dc1\n", "port xeNone0\nport xe1\n", "mode NONE\nnone\n"]) + g["output"]
             acc.count("cases_with_a_word_that_contains_None")
+        if wrng.random() < 0.35:
+            # the file and the device differ in nothing but lines that begin with `--` / `++` (a Lua or SQL comment, a long option): a change like any other
+            g = wrng.choice(gens_spec)
+            body = wrng.choice(["opt a\nopt b\n", "listen 80\n"])
+            if wrng.random() < 0.5:
+                g["output"], old[g["path"]] = body, wrng.choice(["-- generated by hand\n", "--verbose\n"]) + body
+            else:
+                g["output"], old[g["path"]] = wrng.choice(["++ extra\n", "++x\n"]) + body, body
+            acc.count("cases_changing_only_lines_that_begin_with_two_signs")
         acc.count("cases_with_multi_line_files")
         if any(old.get(g["path"]) is not None and old[g["path"]] != g["output"] and sorted(old[g["path"]].split("\n")) == sorted(g["output"].split("\n")) for g in gens_spec):
             acc.count("cases_with_a_device_file_holding_the_same_lines_in_another_order")
@@ -184,8 +202,10 @@ def check_case(seed, acc, unsupported=False, perm=False, inst=False):
             g["prio"], g["prio_on"] = 100, "default"
         acc.count("cases_with_instance_level_priorities")
         acc.count("generators_without_a_reload_command", sum(1 for g in gens_spec if g["reload"] in (None, "<none>")))
-    dev = H.FakeDevice(HardwareView("PC", "Linux"), pc=True)
-    w = {"seed": seed, "unsupported": unsupported, "perm": perm, "inst": inst, "generators": gens_spec, "old_files": old}
+    soft = random.Random(seed ^ 0x50F7).choice(["Linux", "Linux", "SONiC-OS-4.1.0", "SONiC.202305", "Cumulus Linux 4.4", "SwitchDev 1.2", ""])   # (the apply logic of file-based devices looks at the software)
+    acc.distinct("software_of_file_based_devices", soft)
+    dev = H.FakeDevice(HardwareView("PC", soft), pc=True)
+    w = {"seed": seed, "unsupported": unsupported, "perm": perm, "inst": inst, "software": soft, "generators": gens_spec, "old_files": old}
     # expected winner per path
     exp = {}
     for g in gens_spec:
@@ -213,12 +233,12 @@ def check_case(seed, acc, unsupported=False, perm=False, inst=False):
         if shared:
             acc.count("shared_paths")
         acc.case([gens_spec, list(order), old], nontrivial=nontrivial)
-        want = {p: (g["output"], rl(g["reload"])) for p, g in exp.items()}
+        want = {p: (g["output"], rl_dev(g, soft)) for p, g in exp.items()}
         if {p: tuple(v) for p, v in nf.items()} != want:
             acc.violation("C19/wrong-winner", "the content planned for a path is not the output of the highest-priority generator for that path (or depends on the listing order)",
                           dict(w, order=list(order), planned={p: list(v) for p, v in nf.items()}, expected={p: list(v) for p, v in want.items()}))
             return
-        want_safe = {p: (g["output"], rl(g["reload"])) for p, g in exp.items() if g["safe"]}
+        want_safe = {p: (g["output"], rl_dev(g, soft)) for p, g in exp.items() if g["safe"]}
         if {p: tuple(v) for p, v in nfs.items()} != want_safe:
             acc.violation("C19/wrong-safe-set", "safe mode does not plan exactly the winning generators that are marked safe",
                           dict(w, order=list(order), planned={p: list(v) for p, v in nfs.items()}))
@@ -276,7 +296,7 @@ def check_case(seed, acc, unsupported=False, perm=False, inst=False):
                     acc.violation("C19/wrong-reload-command", "the reload command attached to a file is not the winning generator's", dict(w, mode=str(mode), path=p))
                     return
         # --acl-safe: only the files whose winning generator is marked safe are considered at all (possibly none)
-        safe_new = {p: (g["output"], rl(g["reload"])) for p, g in exp.items() if g["safe"]}
+        safe_new = {p: (g["output"], rl_dev(g, soft)) for p, g in exp.items() if g["safe"]}
         job = api.PCDeployerJob(dev, deploy_args(acc, cli_args.EntireReloadFlag.yes, True) if seed % 2 else types.SimpleNamespace(acl_safe=True, entire_reload=cli_args.EntireReloadFlag.yes))
         try:
             job.parse_result(OldNewResult(device=dev, old_files=dict(old), new_files=dict(first_new), safe_new_files=dict(safe_new)))
